@@ -7,7 +7,7 @@ from x2p import impl as I
 
 HEADER = ('Require Import X2P.Base.Prelude X2P.Model.Executor X2P.Spec.Refs X2P.Corr.C02.\nOpen Scope Z_scope.\n')
 TARGETS = ['theories/Props/C02.vo', 'theories/Corr/C02.vo']
-TITLES = ['Main', 'Data_2', 'My Sheet', "It's"]
+TITLES = ['Main', 'Data_2', 'My Sheet', "It's", 'Q1  Totals', 'Q1 Totals']      # the last two differ by one blank only
 WRAP = ['SUM({r})', 'COUNT({r})', 'MAX({r})', 'INDEX({r},1,1)', 'SUM({r})+1', 'COUNTBLANK({r})', 'AVERAGE({r})', 'MIN({r},5)']
 
 
@@ -115,7 +115,7 @@ def make_case(rc):
 
 
 def gen_recipe(rng):
-    ntitles = rng.randint(1, 4)
+    ntitles = rng.choice([1, 2, 3, 4, 6, 6])
     own, text, x, area = gen_ref(rng, ntitles)
     return {'ntitles': ntitles, 'own': own, 'text': text, 'x': list(x), 'area': area, 'wrap': rng.choice(WRAP), 'dup': rng.random() < 0.3}
 
